@@ -23,6 +23,23 @@ Theorem C13_attempt_count_always_failing : forall outs durs ws maxr ri t0,
 Proof. exact attempt_count_always_failing. Qed.
 Print Assumptions C13_attempt_count_always_failing.
 
+(* MaxRetries at the ends of Go's int range (math.MaxInt = "retry until it succeeds", math.MinInt): the count
+   formula above holds for every integer, in particular there is no wrap-around at MaxRetries + 1 *)
+Theorem C13_attempt_count_int_extremes : forall durs ri t0,
+  attempts (execute_with_retries (script [AFail; AFail; AOk]) durs all_timer 9223372036854775807 ri t0) = 3%nat /\
+  attempts (execute_with_retries (script [AFail; AFail; AOk]) durs all_timer (9223372036854775807 - 1) ri t0) = 3%nat /\
+  attempts (execute_with_retries (script [AFail; AFail; AOk]) durs all_timer (-9223372036854775808) ri t0) = 1%nat.
+Proof. exact attempt_count_int_extremes. Qed.
+Print Assumptions C13_attempt_count_int_extremes.
+
+(* the model evaluated with any recursion fuel that turns out to be enough is the model (the correspondence
+   check evaluates huge MaxRetries with a fuel of the script's length) *)
+Theorem C13_fuel_irrelevant : forall outs durs ws maxr ri fuel t0,
+  snd (execute_with_retries_fuel outs durs ws maxr ri fuel t0) <> RFuelOut ->
+  execute_with_retries_fuel outs durs ws maxr ri fuel t0 = execute_with_retries outs durs ws maxr ri t0.
+Proof. exact ewr_fuel_eq. Qed.
+Print Assumptions C13_fuel_irrelevant.
+
 (* any outcomes, any cancellation: at least one attempt, never more than without cancellation, never more
    than one per wait the timer won *)
 Theorem C13_attempt_count_cancelled : forall outs durs ws maxr ri t0,
